@@ -223,14 +223,22 @@ func HandleMessages(startTime time.Time, reader io.Reader, writer io.Writer, con
 	writer.Write([]byte("18 seconds ahead of UTC\n\n"))
 
 	messageChan := make(chan rtcm.Message, 2)
-	go DisplayMessages(messageChan, writer)
+	// displayDone is closed when DisplayMessages has written the last message.
+	displayDone := make(chan struct{})
+	go func() {
+		defer close(displayDone)
+		DisplayMessages(messageChan, writer)
+	}()
 
 	channels := make([]chan rtcm.Message, 0)
 	channels = append(channels, messageChan)
 	appCore := AppCore.New(config, channels)
 	appCore.HandleMessagesUntilEOF(startTime, bufferedReader)
 
+	// Tell DisplayMessages that there is no more and wait until it has
+	// written everything - the caller may exit as soon as we return.
 	close(messageChan)
+	<-displayDone
 }
 
 // DisplayMessages receives messages from the given channel, produces a
